@@ -29,7 +29,7 @@ def _state_changes(fn: ast.AST) -> list[tuple[str, ast.Call, ast.Call]]:
     out = []
     for c in command_constructions(fn, "CommandPublishEvent"):
         ev = kwarg(c, "event", 0)
-        if isinstance(ev, ast.Call) and last(call_name(ev)) == "StepStateChanged":
+        if isinstance(ev, ast.Call) and last(call_name(ev)) == "StepStateChanged" and list_position(c) is not None:
             st = kwarg(ev, "step_state")
             out.append((ast.unparse(st).split(".")[-1] if st is not None else "?", c, ev))
     return out
@@ -42,7 +42,6 @@ def run(chk) -> None:
     stp = param(add, 2)
     sname = param(add, 1)
     sc = _state_changes(add)
-    chk.floor("C35.R1", "StepStateChanged publications in _add_or_enqueue_event", len(sc), 2)
     starts = [c for c in ast.walk(add) if isinstance(c, ast.Call) and isinstance(c.func, ast.Attribute) and c.func.attr == "append" and ast.unparse(c.func.value) == f"{stp}.in_progress"]
     queues = [c for c in ast.walk(add) if isinstance(c, ast.Call) and isinstance(c.func, ast.Attribute) and c.func.attr in ("append", "insert") and ast.unparse(c.func.value) == f"{stp}.queue"]
     chk.floor("C35.R1", "invocation starts", len(starts), 1)
@@ -87,7 +86,7 @@ def run(chk) -> None:
         for w in ast.walk(fn):
             if isinstance(w, ast.While) and any(isinstance(c, ast.Call) and isinstance(c.func, ast.Attribute) and c.func.attr == "pop" and ast.unparse(c.func.value).endswith(".queue") for c in ast.walk(w)):
                 ok = any(isinstance(c, ast.Call) and last(call_name(c)) == "_add_or_enqueue_event" for c in ast.walk(w))
-                ext = any(isinstance(c, ast.Call) and isinstance(c.func, ast.Attribute) and c.func.attr == "extend" and any(isinstance(x, ast.Call) and last(call_name(x)) == "_add_or_enqueue_event" for x in ast.walk(expand(c.args[0], c, depth=1))) for c in ast.walk(w))
+                ext = any(isinstance(c, ast.Call) and isinstance(c.func, ast.Attribute) and c.func.attr == "extend" and isinstance(expand(c.args[0], c, depth=1), ast.Call) and last(call_name(expand(c.args[0], c, depth=1))) == "_add_or_enqueue_event" for c in ast.walk(w))
                 chk.ob("C35.R1", "a drained (previously PREPARING) event is started through _add_or_enqueue_event and its commands are kept", ok and ext, m=mm, node=w, fn=fn, instance=f"drain-publishes:{fn.name}", reason="the drain loop starts work without the helper's RUNNING publication (or drops its commands)")
 
     # ---------------------------------------------------------------- removal <-> NOT_RUNNING, order
